@@ -245,6 +245,22 @@ typedef amgcl::make_solver< amgcl::amg<B, amgcl::coarsening::aggregation, amgcl:
                             amgcl::solver::preonly<B> > ExactSolver;
 static ExactSolver::params exact_prm() { ExactSolver::params p; p.precond.coarse_enough = 1000000; return p; }
 
+// complex system solved through its real-equivalent form (C13): std::complex<Q> is used as a
+// plain pair (constructor, real(), imag()); all arithmetic happens on the expanded Q matrix
+AD_OP(cplx_solve) {
+    Arr<ptrdiff_t> re(t), im(t); std::vector<Q> fr = t.vec(), fi = t.vec();
+    typedef std::complex<Q> C;
+    if (re.col != im.col || re.ptr != im.ptr || re.n != re.m) throw std::invalid_argument("pattern");
+    std::vector<C> val(re.val.size()); for (size_t k = 0; k < val.size(); ++k) val[k] = C(re.val[k], im.val[k]);
+    auto A = std::tie(re.n, re.ptr, re.col, val);
+    auto R = amgcl::adapter::complex_matrix(A);
+    ExactSolver solve(R, exact_prm());
+    std::vector<Q> f(2 * re.n), x(2 * re.n, Q(0));
+    for (ptrdiff_t i = 0; i < re.n; ++i) { f[2 * i] = fr[i]; f[2 * i + 1] = fi[i]; }
+    solve(f, x);
+    return show(x);
+}
+
 // ---------------------------------------------------------------- reorder
 static std::vector<ptrdiff_t> g_perm;             // injected ordering for reorder<>
 struct given_order { template <class M, class V> static void get(const M&, V &perm) { for (size_t i = 0; i < g_perm.size(); ++i) perm[i] = g_perm[i]; } };
